@@ -175,6 +175,8 @@ def run_shard(task):
     pid, sub_name, shard, nshards, n, seed, tier, known_labels = task
     stats = Stats()
     try:
+        if shard % 2 == 1:
+            lib.enable_debug_logging()      # every other shard: the library's debug-only code paths are live
         mod = load_prop(pid)
         sub = {s.name: s for s in mod.SUBS}[sub_name]
         if shard == 0:
